@@ -74,7 +74,10 @@ def identity_comps():
     out += [{'C': 0.5}, {'C': 7.25, 'H': 12}, {'C': 4.9384, 'H': 7.7583, 'N': 1.3577, 'O': 1.4773, 'S': 0.0417},
             {'C': 2, 'H': 4, 'e': -1}, {'C': 2, 'H': 4, 'e': -2}, {'C': 2, 'H': 5, 'p': 1}, {'C': 2, 'H': 4, 'n': 1},
             {'C': 2, 'H': 4, 'p': 2, 'e': 1}, {'C': 7.5, 'H': 4, 'e': -1}, {'13C': 2, 'C': 4, 'H': 12},
-            {'D': 3, 'C': 1, 'H': 1}, {'13C': 6}, {'C': 2, 'H': 0, 'O': 1}, {'C': 3, 'N': 0}]
+            {'D': 3, 'C': 1, 'H': 1}, {'13C': 6}, {'C': 2, 'H': 0, 'O': 1}, {'C': 3, 'N': 0},
+            # every spelling of a labelled atom
+            {'2H': 2, 'C': 2, 'H': 4}, {'T': 1, 'C': 1, 'H': 3}, {'3H': 1, 'C': 1}, {'15N': 2, 'N': 1},
+            {'18O': 1, 'O': 1, 'H': 2}, {'34S': 1, 'S': 1}, {'2H': 1.5, 'C': 1}]
     return out
 
 
@@ -294,6 +297,22 @@ def check(case, ctx):
         ctx.evals += 1
         if st4 != 'ok' or not lib.close(mean, lavg, pos_tol + 1e-6 * max(1.0, avg)):
             ctx.fail('mean-vs-library-average-mass', lavg, mean, call=call)
+    thr = opts.get('min_abundance_threshold')
+    if thr and 'max_isotopes' not in opts:
+        # the reporting threshold only removes peaks: what is kept equals the unpruned pattern (relative to the base peak)
+        o2 = {k: v for k, v in opts.items() if k != 'min_abundance_threshold'}
+        st5, full = lib.call(p.isotopic_distribution, copy.deepcopy(comp), **o2)
+        ctx.evals += 1
+        if st5 == 'ok' and full:
+            fb, kb_ = max(a for _, a in full), max(a for _, a in dist)
+            fullr = {m: a / fb for m, a in full}
+            keptr = {m: a / kb_ for m, a in dist}
+            missing = [m for m, a in fullr.items() if a > thr * 1.05 and m not in keptr]
+            extra = [m for m in keptr if fullr.get(m, 0.0) < thr * 0.95]
+            changed = [m for m, a in keptr.items() if m in fullr and abs(a - fullr[m]) > 1e-9]
+            if missing or extra or changed:
+                ctx.fail('threshold-changes-kept-peaks', {'missing': missing[:3], 'extra': extra[:3]},
+                         {m: [fullr[m], keptr[m]] for m in changed[:3]}, call=call)
     if neutron_view and not opts.get('output_masses_for_neutron_offset') and integer and not pruning and r >= 3:
         # the neutron-offset view is the mass view binned by nominal mass
         o2 = {k: v for k, v in opts.items() if k != 'use_neutron_count'}
